@@ -139,6 +139,10 @@ def histories(run, graphs, seeds, length, *, flavour='plain', concurrent=3, read
     for g, seed in itertools.product(graphs, seeds):
         with harness.scratch() as d:
             kw = dict(session_kw or {})
+            if 'cache' not in kw:
+                # the cache arrangement rotates with the seed: none / one directory per user (each client its own machine) / one directory
+                # for every key (the CLI default for one OS user) - the properties hold whatever the clients have cached
+                kw['cache'] = [None, '__private__', '__shared__'][seed % 3]
             if kw.get('cache') == '__shared__':
                 kw['cache'] = str(d / 'shared-cache')      # one cache directory for every key (the CLI default for one OS user)
             s = repodrv.Session(g, d, seed=seed, flavour=flavour, concurrent=concurrent, foreign=foreign, **kw)
